@@ -78,12 +78,22 @@ def make_hook(world_ref, wname, hname, outcome, log):
     return hook
 
 
-def render_config(watchers, circus):
+def render_config(watchers, circus, sockets=(), tmp=None):
     lines = ["[circus]", "check_delay = -1", "endpoint = tcp://127.0.0.1:1",
              "pubsub_endpoint = tcp://127.0.0.1:2"]
     for key in sorted(circus or {}):
         lines.append("%s = %s" % (key, circus[key]))
     lines.append("")
+    for sk in sockets or ():
+        lines.append("[socket:%s]" % sk["name"])
+        if sk.get("kind") == 'unix':
+            lines.append("path = %s" % os.path.join(tmp or '/tmp',
+                                                    sk["name"] + '.sock'))
+        else:
+            lines += ["host = 127.0.0.1", "port = 0"]
+        if sk.get("proto"):
+            lines.append("proto = %s" % sk["proto"])
+        lines.append("")
     for wc in watchers:
         lines.append("[watcher:%s]" % wc["name"])
         lines.append("cmd = %s" % wc.get("cmd",
@@ -193,6 +203,7 @@ class History(object):
                                   if k != 'hooks')
                              for wc in case["watchers"]]
         self.cfg_circus = dict(case.get("arbiter") or {})
+        self.cfg_sockets = list(case.get("socket_sections") or [])
         self._write_config()
         try:
             self.world = SimWorld(config_file=self.cfg_path,
@@ -211,7 +222,8 @@ class History(object):
 
     def _write_config(self):
         with open(self.cfg_path, 'w') as f:
-            f.write(render_config(self.cfg_watchers, self.cfg_circus))
+            f.write(render_config(self.cfg_watchers, self.cfg_circus,
+                                  self.cfg_sockets, self.tmp))
 
     def edit_config(self, edit):
         if self.tmp is None:
